@@ -15,6 +15,9 @@ func init() {
 			for v := 0; v <= 1; v++ {
 				r = append(r, Oblig{Harness: "vh_C08_call", Unroll: 8, Globals: map[string]int{"vhVariadic": v}})
 			}
+			for form := 0; form <= 1; form++ {
+				r = append(r, Oblig{Harness: "vh_C08_callbin", Unroll: 8, Globals: map[string]int{"vhBinForm": form}})
+			}
 			return r
 		},
 		Bounds:      []string{"2 activations of the same statement: select (2 receive clauses), recv (2 forms), recv2, send, range over channel - with and without a context - and an interpreted call (plain and variadic callee); B runs at A's preemption point before reflect.Select where there is one"},
